@@ -247,6 +247,14 @@ func c15Lib(query, stdin string, maxOut int, budget time.Duration) vlib.M {
 // cmdC15Run: cases {id, argv:[...], stdin:"...", lib?:{query}} ->
 // records {id, obs:{stdout, stderr, exit | timeout ...}, lib?:{...}}.
 func cmdC15Run(args []string) error {
+	// doubles the value model does not spell are rendered by the library's own encoder: the command must print exactly that text
+	vlib.FloatText = func(f float64) string {
+		b, err := gojq.Marshal(f)
+		if err != nil {
+			return "?"
+		}
+		return string(b)
+	}
 	fs := flag.NewFlagSet("c15run", flag.ExitOnError)
 	in := fs.String("in", "", "cases ndjson")
 	out := fs.String("out", "", "records ndjson")
